@@ -47,3 +47,6 @@ Lemma tdata_pure_truth : pure_truth tdata.
 Proof.
   exists (fun v => negb (Z.eqb v 0)). split; [reflexivity|]. intros [|]; reflexivity.
 Qed.
+
+Lemma tdata_list_pure : list_building_pure tdata.
+Proof. exists (fun l => fold_left Z.add l 0). split; intros; reflexivity. Qed.
